@@ -331,8 +331,14 @@ class DataFrameSchemaBackend(PolarsSchemaBackend):
             **{k: v.default for k, v in missing_cols_schema.items()}
         ).cast({k: v.dtype.type for k, v in missing_cols_schema.items()})
 
-        # Set column order
-        check_obj = check_obj.select([*schema.columns])
+        # Set column order: the schema's columns first. Columns that are not
+        # in the schema are kept: removing them is what strict="filter" does.
+        other_columns = [
+            col
+            for col in get_lazyframe_column_names(check_obj)
+            if col not in schema.columns
+        ]
+        check_obj = check_obj.select([*schema.columns, *other_columns])
         return check_obj
 
     def strict_filter_columns(
